@@ -177,6 +177,17 @@ fn exec_inflate_state(s: &Script, st: &mut Stats) -> Result<RunInfo, Violation> 
             st.inc("probe.prior_error_return");
         }
     }
+    // optionally a chain of two resets with nothing in between: the last one decides what is promised
+    match s.c("pre_policy") {
+        1 => a.reset_as(MinReset),
+        2 => a.reset_as(ZeroReset),
+        3 => a.reset_as(FullReset(fmt1)),
+        4 => a.reset(fmt1),
+        _ => {}
+    }
+    if s.c("pre_policy") != 0 {
+        st.inc("probe.reset.chain_of_two");
+    }
     match policy {
         1 => a.reset_as(MinReset),
         2 => a.reset_as(ZeroReset),
@@ -475,6 +486,9 @@ pub fn gen_c18(rng: &mut Rng, i: u64, tier: Tier) -> Script {
             s.set("fmt2", f2);
             let policy = rng.below(4) as i64;
             s.set("policy", policy);
+            if rng.chance(1, 5) {
+                s.set("pre_policy", rng.range(1, 4) as i64);
+            }
             let eff2 = if policy == 1 || policy == 2 { f1 } else { f2 };
             let tp = match rng.below(10) {
                 0 => rng.range(30_000, 100_000),
